@@ -71,7 +71,20 @@ func isPublicName(name string) bool {
 		}
 		return manet.IsPublicAddr(ma) && !manet.IsIPUnspecified(ma)
 	}
-	return true
+	// A host name is made of letters, digits, hyphens, underscores and dots.
+	// Whatever else the component carries makes it something that a dialer
+	// turns into another host before it uses it - a port after a colon
+	// ("localhost:8080" dials localhost), characters that are mapped to
+	// others (full-width letters and digits, ideographic full stops) - and
+	// that cannot be judged here: not public.
+	for i := 0; i < len(name); i++ {
+		switch ch := name[i]; {
+		case 'a' <= ch && ch <= 'z', '0' <= ch && ch <= '9', ch == '.', ch == '-', ch == '_':
+		default:
+			return false
+		}
+	}
+	return name != ""
 }
 
 func FindHTTPAddrs(maddrs []multiaddr.Multiaddr) []multiaddr.Multiaddr {
